@@ -563,6 +563,27 @@ void Router::processActions(void)
 
         if (!isMove)
         {
+            // Endpoint changes queued in this transaction that would attach
+            // a connector to this obstacle hold a pointer to it.  Like the
+            // ends of connectors already attached, turn them into free
+            // endpoints at their current position before it is freed.
+            for (ActionInfoList::iterator it = actionList.begin(); 
+                    it != finish; ++it)
+            {
+                if (it->type != ConnChange)
+                {
+                    continue;
+                }
+                for (ConnUpdateList::iterator conn = it->conns.begin();
+                        conn != it->conns.end(); ++conn)
+                {
+                    if (conn->second.m_anchor_obj == obstacle)
+                    {
+                        conn->second = ConnEnd(conn->second.position());
+                    }
+                }
+            }
+
             // Free deleted obstacle.
             m_currently_calling_destructors = true;
             deletedObstacles.push_back(obstacle->id());
